@@ -377,9 +377,18 @@ JANET_CORE_FN(cfun_table_tostruct,
     janet_arity(argc, 1, 2);
     JanetTable *t = janet_gettable(argv, 0);
     JanetStruct proto = janet_optstruct(argv, argc, 1, NULL);
-    JanetStruct st = janet_table_to_struct(t);
+    /* The prototype must be set before janet_struct_end computes the hash,
+     * which includes the hash of the prototype. */
+    JanetKV *st = janet_struct_begin(t->count);
+    JanetKV *kv = t->data;
+    JanetKV *end = t->data + t->capacity;
+    while (kv < end) {
+        if (!janet_checktype(kv->key, JANET_NIL))
+            janet_struct_put(st, kv->key, kv->value);
+        kv++;
+    }
     janet_struct_proto(st) = proto;
-    return janet_wrap_struct(st);
+    return janet_wrap_struct(janet_struct_end(st));
 }
 
 JANET_CORE_FN(cfun_table_rawget,
